@@ -285,9 +285,16 @@ Definition prepeptide_roundtrip (l : loc) (ll tl : Z) : list Z :=
   end.
 
 (* ---------- TTAResults.new_feature_from_other ---------- *)
-(* Feature() refuses a negative start with ValueError *)
+(* a location of several parts: the offset (an index into the spliced sequence) is mapped through
+   the exons by convert_protein_position_to_dna(offset // 3, offset // 3 + 1, location), the marker
+   is the three bases from the codon's first base on (strand -1: the three bases up to dna_end);
+   a location of one part: start + offset / end - offset - 3 as before.
+   Feature() refuses a negative start with ValueError *)
 Definition tta_marker (l : loc) (offset : Z) : res loc :=
-  let start := if lstrand l =? 1 then lstart l + offset else lend l - offset - 3 in
+  do start <- (if is_compound l then
+                 do dd <- convert (offset / 3) (offset / 3 + 1) l;
+                 Ok (if lstrand l =? -1 then snd dd - 3 else fst dd)
+               else Ok (if lstrand l =? 1 then lstart l + offset else lend l - offset - 3));
   if start <? 0 then Err E_Value else Ok [mkPart start (start + 3) (lstrand l)].
 
 (* ---------- decidable guard / classes ---------- *)
@@ -392,11 +399,22 @@ Definition spec_reread (g : loc) (ll tl : Z) (g' : loc) (again : res (list loc))
   ++ eBool (spec_prepeptide g' ll tl again)
   ++ eBool (loc_eqb g' g).
 
-(* the marker of the codon at offset i of the gene's reading order *)
+(* the marker of the codon at offset i of the gene's reading order: three bases, every one of them a
+   base of the gene, reading exactly the coordinates i..i+3 of the gene's reading order.  (Base-wise
+   containment, not containment in ONE exon: a codon that runs over the border of two exons adjoining
+   without an intron is three adjacent bases of the record and a one-part marker covers it.) *)
 Definition spec_tta (g : loc) (i : Z) (out : res loc) : bool :=
   match out with
   | Err _ => false
-  | Ok m => contains g m && zlist_eqb (idx m) (sublist i (i + 3) (idx g))
+  | Ok m => forallb (fun x => in_loc x g) (idx m) && (llen m =? 3)
+            && zlist_eqb (idx m) (sublist i (i + 3) (idx g))
+  end.
+(* the three bases of the codon at offset i are NOT adjacent in the record: an intron of at least one
+   base lies inside the codon (no one-part marker can cover it: finding tta_codon_split_by_intron) *)
+Definition codon_split (g : loc) (i : Z) : bool :=
+  match sublist i (i + 3) (idx g) with
+  | [a; b; c] => negb (((b =? a + 1) && (c =? a + 2)) || ((b =? a - 1) && (c =? a - 2)))
+  | _ => false
   end.
 
 (* the loaded CDS: gene location g, stored translation t, the sub-location of residues [s,e), and
@@ -518,7 +536,8 @@ Definition run_C09 (fn : Z) (l : list Z) : list Z :=
           | Some ((a, ((ll, tl), out)), []) => eBool (spec_prepeptide a ll tl out) ++ [gene_class a]
           | _ => bad_input end
   | 15 => match dPair dLoc (dPair dZ dResLoc) l with
-          | Some ((a, (off, out)), []) => eBool (spec_tta a off out) ++ [gene_class a]
+          | Some ((a, (off, out)), []) =>
+            eBool (spec_tta a off out) ++ [gene_class a] ++ eBool (codon_split a off)
           | _ => bad_input end
   | 19 => match dPair dLoc (dPair (dPair dZ dZ) dReread) l with
           | Some ((a, ((ll, tl), out)), []) =>
